@@ -72,6 +72,10 @@ def path(ex, t):
         v = tag_value(h, l, k)
         if k == 0 and t['tag'] in (b'disKey', b'disMacro'): v = h.str_(list(b'lk' if t['tag'] == b'disKey' else b'plain text'))
         pairs.append((t['tag'], v))
+        # a lower-priority tag is present as well: whatever the kind of the higher tag's value, it must still decide the name
+        # (checked natively as: the name equals the name of the record without the lower tag)
+        if t['tag'] not in (b'navName', b'id'): pairs.append((b'navName', h.str_(list(b'LOWER'))))
+        st['lower'] = t['tag'] not in (b'navName', b'id')
     elif t['mode'] == 'macro':
         pairs.append((b'disMacro', h.str_(list(t['macro']))))
         import re as _re2
@@ -186,6 +190,7 @@ def post(ex, t, r):
     s['rec'] = cz.dict_(st['rec'])
     s['native_case'] = {'api': 'dis', 'rec': s['rec'], 'localized': [[k.hex(), v.hex()] for k, v in st['loc'].items()], 'def': b'DEFAULT'.hex() if st.get('def') else None}
     s['def'] = st.get('def')
+    if st.get('lower'): s['alt_case'] = dict(s['native_case'], rec=[kv for kv in s['rec'] if kv[0] != b'navName'.hex()])
     if r.kind == 'ok': s['out'] = bytes(cz.c(b) & 0xff for b in st['out']).hex()
     if t['mode'] == 'nodollar' and r.kind == 'ok':
         # unchanged for EVERY such text on this path: the output bytes are the input bytes (as formulas)
@@ -331,6 +336,13 @@ def run(ctx):
             ctx.report('dis.%s:%s' % (s['mode'], s['template']), 'record %s displays as %r, the documented rules give %r' % (json.dumps(s['rec'])[:300], got, want), case=s['native_case'])
         if s.get('nodollar_violation'):
             ctx.report('dis.no-dollar-changed', 'a disMacro text without $ was changed: %s -> %r' % (json.dumps(s['rec'])[:200], got), case=s['native_case'])
+    # precedence regardless of the value's kind: dropping the lower-priority tag must not change the name
+    alts = [s for s in S if s.get('alt_case') and s.get('kind') == 'ok' and 'ok' in (s.get('native') or {})]
+    if alts:
+        res = native.run_cases(native.build(), [s['alt_case'] for s in alts])
+        for s, r in zip(alts, res):
+            if 'ok' in r and r['ok'] != s['native']['ok']:
+                ctx.report('dis.kinds:%s' % s['template'], 'record %s displays as %r, but as %r without the lower-priority navName tag: the first present tag does not decide' % (json.dumps(s['rec'])[:300], bytes.fromhex(s['native']['ok']), bytes.fromhex(r['ok'])), case=s['native_case'])
     ctx.cov['traces_validated_against_impl'] += validated
     # the pattern constant as read from the MIR on this run
     import re as _re
